@@ -611,3 +611,104 @@ def run_C14(ctx):
     ctx.cov["rule"] = "histories ending in flush, acknowledgement with the worker held at each of its remaining system calls (pending unlink, queued writes), drop (held or free), reopen, purge + flush on the new instance; non-trivial = the drop found the worker with work left or a chunk was unlinked"
     ctx.cov["samples"] = [cases[0][:1000], logs[0][:1200]]
     return core.finish(ctx, proof)
+
+
+def f2_class(case_ops, fields_):
+    """finding F2: does the history append a log id that is not above the closing last id
+    of an earlier chunk rotation (or the boundary in force)?"""
+    mx = None
+    for o, r in zip(case_ops, fields_):
+        if r.startswith("stat ") or r.startswith("ret stat "):
+            body = r[r.index("closed=["):]
+            import re
+            for m in re.finditer(r"\{(\S+) (\S+) (\S+) (\S+) (\S+)\}", body.split(" open=")[0]):
+                last = m.group(2)
+                if last != "-":
+                    t = tuple(int(x) for x in last.split(":"))
+                    mx = t if mx is None or t > mx else mx
+            cm = re.search(r"cache=(\S+?),", r)
+            if cm and cm.group(1) != "-":
+                t = tuple(int(x) for x in cm.group(1).split(":"))
+                mx = t if mx is None or t > mx else mx
+        if o.startswith("A ") and (r.startswith("ok ") or r.startswith("ret ok")) and mx is not None:
+            t = o.split()[1:]
+            for k in range(0, len(t), 3):
+                if (int(t[k]), int(t[k + 1])) <= mx:
+                    return True
+    return False
+
+
+def run_C07(ctx):
+    proof = core.proof_stage("C07")
+    core.builds()
+    rnd = ctx.rnd
+    # (1) lock-step histories under tiny caches, reads and snapshot iteration everywhere, drains, restarts
+    n = ctx.scale(300, 3000)
+    base = p_seq.gen_cases(ctx, n, 5, ctx.scale(50, 200), big_cache=False, small_cache=True, p_reject=0.05, restarts=2,
+                           finals=["F 1", "I", "E", "G", "R 0 100000", "D"])
+    cases = []
+    for c in p_seq.corpus("C07") + base:
+        head, ops = c.split("|", 1)
+        out = []
+        for o in [x.strip() for x in ops.split(";") if x.strip()]:
+            out.append(o)
+            if o == "I":
+                out.append("G")
+                if rnd.random() < 0.3:
+                    out.append("E")
+                if rnd.random() < 0.5:
+                    out += ["R 0 100000"] if rnd.random() < 0.5 else ["D"]
+        cases.append(head + "| " + " ; ".join(out))
+    impl, model = p_seq.seq_run(ctx, cases)
+    spec = p_seq.spec_lines(cases, ctx.wd)
+    bad = 0
+    for c, a, s in zip(cases, impl, spec):
+        r = p_seq.oracle_c01(ctx, c, a, s)
+        if r is not None:
+            ops = ["open"] + [o.strip() for o in c.split("|", 1)[1].split(";")]
+            rp = dict(kind="seq", case=c, at_op=r[0], op=r[1], detail=r[2][:600])
+            fa = p_seq.fields(a)
+            if "read differs" in r[2] and r[0] < len(fa) and "err:" in fa[r[0]] and f2_class(ops, fa):
+                rp["class"] = "F2-reappended-id-not-above-eviction-boundary"
+            bad += 1
+            ctx.fail("oracle", "C07 oracle: " + r[2][:300], rp)
+    # (2) gated traces: reads while data is buffered / queued / written / synced / evicted
+    m = ctx.scale(80, 700)
+    tcases = []
+    for i in range(m):
+        cfg = gen.rand_cfg(rnd, small_cache=True, trunc=1)
+        line, st = gen_schedule(rnd, rnd.randint(6, ctx.scale(30, 60)), cfg, faults=0, reads=True, small_cache=True)
+        # a stat before every read so that rotations are visible to the classifier
+        tcases.append(line.replace(" ; R ", " ; G ; R ").replace(" ; D ;", " ; G ; D ;"))
+    logs, rep = trace_check(ctx, "c07", tcases)
+    tw = [writes_of_case(c, l) for c, l in zip(tcases, logs)]
+    for c, l, ws in zip(tcases, logs, tw):
+        if l in ("hang", "harness-panic") or any(isinstance(w, tuple) for w in ws):
+            continue
+        ev = [e.strip() for e in l.split(" ; ")]
+        calls = [(ev[i][7:], ev[i + 1 + [j for j, e in enumerate(ev[i + 1:]) if e.startswith("c ret ")][0]][6:])
+                 for i, e in enumerate(ev) if e.startswith("c call ")]
+        for k, (o, r) in enumerate(calls):
+            if (o.startswith("R ") or o == "D") and ("err:" in r or "panic" in r):
+                rp = dict(kind="trace", case=c[:4000], op=o, observed=r[:400], trace=l[:5000])
+                if f2_class([x for x, _ in calls[:k]], [y for _, y in calls[:k]]):
+                    rp["class"] = "F2-reappended-id-not-above-eviction-boundary"
+                bad += 1
+                ctx.fail("oracle", "C07 oracle: a read of a live entry failed while the worker was at some position: " + r[:200], rp)
+                break
+    keep, seen = [], set()
+    for fl in ctx.failures:
+        cl = fl["replay"].get("class")
+        if cl:
+            ctx.count("known_" + cl)
+            if cl in seen:
+                continue
+            seen.add(cl)
+        keep.append(fl)
+    ctx.failures = keep
+    ctx.k_checks["oracle-reads-total"] = (not any(f["kind"] == "oracle" and "class" not in f["replay"] for f in ctx.failures), len(cases) + len(tcases))
+    ctx.cov["evaluations"] = len(cases) + len(tcases)
+    ctx.cov["distinct_nontrivial"] = p_seq.nontrivial(cases, impl) + len(set(tcases))
+    ctx.cov["rule"] = "lock-step histories under cache limits {0,1,2,3} x {0,1,10,1G} with range reads, snapshot iteration and drains at idle points and restarts, plus gated traces with reads while requests are buffered / queued / in flight / written / synced / evicted; every read item is compared with the reference log; non-trivial = contains rotation or refused operation (histories), every trace"
+    ctx.cov["samples"] = [cases[0][:1000], tcases[0][:1000]]
+    return core.finish(ctx, proof)
